@@ -146,6 +146,9 @@ func (g *TG) Type(depth int, pos int) reflect.Type {
 }
 
 // hasRef: contains pointers, maps, slices or times (unusable / awkward as map keys)
+// HasRef reports whether t contains pointers, maps, slices, times or null.* (awkward or unusable in map keys)
+func HasRef(t reflect.Type) bool { return hasRef(t) }
+
 func hasRef(t reflect.Type) bool {
 	switch t.Kind() {
 	case reflect.Ptr, reflect.Map, reflect.Slice, reflect.Interface:
@@ -209,7 +212,9 @@ func (g *TG) Struct(depth int) reflect.Type {
 			if g.R.IntN(2) == 0 {
 				fs = append(fs, reflect.StructField{Name: fmt.Sprintf("S%d", i), Type: t, Tag: `plenc:"-"`})
 			} else {
-				fs = append(fs, reflect.StructField{Name: fmt.Sprintf("u%d", i), PkgPath: "verifharness/gen", Type: t})
+				// unexported fields are skipped whatever their tag says
+				utag := []string{"", "", `plenc:"1"`, fmt.Sprintf(`plenc:"%d"`, idx), `plenc:"x"`, `plenc:"2,flat"`}[g.R.IntN(6)]
+				fs = append(fs, reflect.StructField{Name: fmt.Sprintf("u%d", i), PkgPath: "verifharness/gen", Type: t, Tag: reflect.StructTag(utag)})
 			}
 			continue
 		}
